@@ -10,7 +10,6 @@ CONSTANTS
   StoreOnLoad = TRUE
   Depth = 6
   Hist = FALSE
-CONSTRAINT Bound
-CONSTRAINT Emit
+CONSTRAINT Cons
 CHECK_DEADLOCK FALSE
 INVARIANT NeverHit
